@@ -127,6 +127,9 @@ class Flow:
             if name is None: return ('unknown', 'indirect call')
             if name.endswith('Parser::parse_from') or name.endswith('Parser::parse') or name.endswith('Parser>::parse_from') or name.endswith('Parser>::parse'): return ('args',)
             return self.call_named(name, decl, args, depth)
+        if k == 'Binary': return ('bin', e['op'], self.ev(e['lhs'], env, depth), self.ev(e['rhs'], env, depth))
+        if k == 'Unary': return ('un', e['op'], self.ev(e['arg'], env, depth))
+        if k == 'LogicalOp': return ('logic', e['op'], self.ev(e['lhs'], env, depth), self.ev(e['rhs'], env, depth))
         if k == 'Closure': return ('closure', canon(e['def']))
         if k == 'ZstLiteral': return ('fn', canon(e['fn']['def'])) if 'fn' in e else ('lit', '()')
         return ('unknown', k)
@@ -195,15 +198,19 @@ def scan(fl, e, env, pred, out):
     if k == 'If':
         c = e['cond']
         while c['k'] == 'Use': c = c['source']
-        env_then = env
+        env_then = dict(env); env_else = dict(env)
         if c['k'] == 'Let':
             scan(fl, c['expr'], env, pred, out)
-            env_then = dict(env)
-            for x in walk_pat_vars(c['pat']): env_then[x] = ('payload', fl.ev(c['expr'], env), x.split('#')[0])
+            src = fl.ev(c['expr'], env)
+            for x in walk_pat_vars(c['pat']): env_then[x] = ('payload', src, x.split('#')[0])
+            ct = ('matches', src)
         else:
             scan(fl, c, env, pred, out)
+            ct = fl.ev(c, env)
+        env_then['#conds'] = env.get('#conds', ()) + ((ct, True),)
+        env_else['#conds'] = env.get('#conds', ()) + ((ct, False),)
         scan(fl, e['then'], env_then, pred, out)
-        if e.get('else') is not None: scan(fl, e['else'], env, pred, out)
+        if e.get('else') is not None: scan(fl, e['else'], env_else, pred, out)
         return
     if k == 'Match':
         scan(fl, e['scrutinee'], env, pred, out)
